@@ -486,8 +486,11 @@ def statelessBFS (fixed : Bool) (adjE : Nat → List Edge) (d : Dir) (wfilt : Ed
 
 /-! ### NumEdges / Degrees / Dimensions -/
 
-/-- `adjacencyMapDigraph.NumEdges` AS IT IS: it returns `s.nodes.Cardinality()`. -/
-def AdjMap.numEdges (g : AdjMap) : Nat := g.nodes.length
+/-- `adjacencyMapDigraph.NumEdges` (hooks/C14-fix2.patch): the cardinalities of the outbound index summed — an
+edge is stored once, under its start node. -/
+def AdjMap.numEdges (g : AdjMap) : Nat := (g.outbound.map (fun kv => kv.2.length)).sum
+/-- `adjacencyMapDigraph.NumEdges` before that repair: it returned `s.nodes.Cardinality()`. -/
+def AdjMap.numEdgesOld (g : AdjMap) : Nat := g.nodes.length
 /-- `csrDigraph.NumEdges`: `len(outAdj)` — distinct (start, end) pairs. -/
 def Csr.numEdges (g : Csr) : Nat := g.outAdj.length
 /-- `triplestore.NumEdges`: `len(edges)` — every triple, tombstoned or not. -/
